@@ -16,6 +16,8 @@
      * with ignore_wrappers = FALSE every object is wrapped in a single-key map naming its
        class - the runtime class when the protocol is polymorphic - and so are the messages
      * with ignore_wrappers = TRUE a single return value is the whole response document
+     * a member declared exc=True is outside the documents altogether: never written (by name or by position: the positional list
+       is the list of the OTHER members), never read - user code gets nothing for it, whatever it returns there stays at home
      * numbers are numbers, booleans booleans; decimals, dates, uuids travel as strings;
        bytes as base64 text (MessagePack: bin); integers outside [-2^63, 2^64) travel as
        decimal text in MessagePack (its integer range ends there)                         *)
@@ -31,13 +33,15 @@ Kind(p, fam, text) == IF p \in IntTypes THEN (IF fam \in Packed /\ text \in Huge
                       ELSE IF p = "ByteArray" THEN (IF fam \in Packed THEN "bin" ELSE "str")
                       ELSE IF fam \in Packed THEN "raw" ELSE "str"      \* MessagePack carries text as str or as bin holding its UTF-8 bytes
 
+Exc(f) == "exc" \in DOMAIN f /\ f.exc
+Included(fl) == SelectSeq([k \in 1..Len(fl) |-> k], LAMBDA k : ~Exc(fl[k]))       \* indexes of the members that travel
 RECURSIVE Dv(_, _, _), Pairs(_, _, _, _)
 DvSeq(t, s, cfg) == [k \in 1..Len(s) |-> Dv(t, s[k], cfg)]
 MemberDoc(f, x, cfg) == IF f.max > 1 THEN (IF x = Nil THEN Null ELSE <<"list", DvSeq(f.t, x[2], cfg)>>) ELSE Dv(f.t, x, cfg)
 Pairs(fl, vals, cfg, k) ==
   IF k > Len(fl) THEN <<>>
-  ELSE (IF vals[k] # Nil \/ fl[k].min > 0 THEN << <<fl[k].n, MemberDoc(fl[k], vals[k], cfg)>> >> ELSE <<>>) \o Pairs(fl, vals, cfg, k + 1)
-Positional(fl, vals, cfg) == <<"list", [k \in 1..Len(fl) |-> MemberDoc(fl[k], vals[k], cfg)]>>
+  ELSE (IF ~Exc(fl[k]) /\ (vals[k] # Nil \/ fl[k].min > 0) THEN << <<fl[k].n, MemberDoc(fl[k], vals[k], cfg)>> >> ELSE <<>>) \o Pairs(fl, vals, cfg, k + 1)
+Positional(fl, vals, cfg) == LET ix == Included(fl) IN <<"list", [j \in 1..Len(ix) |-> MemberDoc(fl[ix[j]], vals[ix[j]], cfg)]>>
 Dv(t, v, cfg) ==
   IF v = Nil THEN Null
   ELSE IF t.k = "prim" THEN <<Kind(t.p, cfg.fam, v[2]), v[2]>>
@@ -75,10 +79,17 @@ TreeEq(a, b) ==
   \* observed bin leaves come as <<"bin", base64, the text the bytes are UTF-8 for (or "?")>>
   ELSE IF a[1] = "bin" THEN (b[1] = "bin" /\ a[2] = b[2])
   ELSE a = b
+\* what of a value travels: the members that are not excluded
+RECURSIVE Vis(_, _)
+Vis(t, v) == IF v = Nil THEN Nil
+             ELSE IF v[1] = "seq" THEN <<"seq", [k \in 1..Len(v[2]) |-> Vis(IF t.k = "arr" THEN t.of ELSE t, v[2][k])]>>
+             ELSE IF t.k = "obj" /\ v[1] = "obj" THEN LET fl == FlatFields(Runtime(t, v)) IN
+                  <<"obj", v[2], [k \in 1..Len(v[3]) |-> IF k <= Len(fl) THEN (IF Exc(fl[k]) THEN Nil ELSE Vis(fl[k].t, v[3][k])) ELSE v[3][k]]>>
+             ELSE v
 \* objects all of whose members have a value (the positional form is defined for these)
 RECURSIVE Full(_, _)
 Full(t, v) == IF v = Nil THEN FALSE
               ELSE IF v[1] = "seq" THEN \A k \in 1..Len(v[2]) : Full(IF t.k = "arr" THEN t.of ELSE t, v[2][k])
-              ELSE IF t.k = "obj" THEN \A k \in 1..Len(FlatFields(t)) : Full(FlatFields(t)[k].t, v[3][k])
+              ELSE IF t.k = "obj" THEN \A k \in 1..Len(FlatFields(t)) : Exc(FlatFields(t)[k]) \/ Full(FlatFields(t)[k].t, v[3][k])
               ELSE TRUE
 =============================================================================
